@@ -252,8 +252,8 @@ def run(res, tier, seed):
         if not lac and n <= 3:
             gl = gen["Gen_Layout"]["klm_gac" if fam == "klm" else "pod_gac"]["leaves"]
             vals = [gen_order_values(r.scans[i], gl) for i in range(n)]
-            case = "(%s, %s, %d, (%d%%nat, %s, [%s]))" % (common.blit(has_arch), common.zlist(data), hdr_count, n,
-                                                         common.blit(warned), "; ".join(common.zlist(v) for v in vals))
+            case = "(%s, %s, %d, (%d%%nat, %s, [%s]))" % (common.blit(has_arch), common.zpack(data), hdr_count, n,
+                                                         common.blit(warned), "; ".join(common.zpack(v) for v in vals))
             coq_cases.setdefault(fam, []).append((case, ctx))
     for fam, lst in coq_cases.items():
         lst = lst[:3] if tier == "quick" else lst
